@@ -76,10 +76,19 @@ fn apply_galois_exact(cfg: &Cfg, grp: &str, case: u64, rng: &mut Rng, rep: &mut 
     // index-revealing plaintext with upper-half values
     let m: Vec<u64> = (0..n).map(|j| if j % 3 == 2 { t - 1 - (j as u64 % t.min(5)) % t } else { (j as u64 + 1) % t }).collect();
     let Ok(ct0) = lib(|| kit.enc.encrypt_new(&kit.plain_from_coeffs(&m))) else { return };
+    // sources: the fresh encryption, and ciphertexts of special structure (all-zero, noise-free with c1 = 0, doubled)
+    let mut sources: Vec<(&'static str, Ciphertext, Vec<u64>)> = vec![("fresh", ct0, m.clone())];
+    if case % 4 == 0 || n > 64 {
+        let b: Vec<u64> = (0..n).map(|j| (3 * j as u64 + 2) % t).collect();
+        for sp in special_exact(&kit, &m, &b, &m) { if sp.ct.size() == 2 { sources.push((sp.name, sp.ct, sp.coeffs)); } }
+    }
+    for (sname, ct0, m) in sources.iter().map(|(a, b, c)| (*a, b, c)) {
+    let few: Vec<usize> = elts.iter().copied().take(if sname == "fresh" { usize::MAX } else { 6 }).collect();
     for level in 0..kit.levels.len() {
-        let Some(ct) = to_level(&kit, &ct0, level) else { continue };
+        let Some(ct) = to_level(&kit, ct0, level) else { continue };
         if !noise_ok(&kit, level) { rep.out_of_precondition += 1; continue; }
-        for &g in &elts {
+        rep.count("source_ciphertext", sname);
+        for &g in &few {
             let form = rng.below(3);
             let r = lib(|| match form { 0 => { let mut x = ct.clone(); kit.eval.apply_galois_inplace(&mut x, g, &gk); x } 1 => { let mut d = Ciphertext::new(); kit.eval.apply_galois(&ct, g, &gk, &mut d); d } _ => kit.eval.apply_galois_new(&ct, g, &gk) });
             rep.count("apply_galois", &format!("{}|n={}|L{}|seeded_keys={}", spec.scheme_name(), n, level, save_seed));
@@ -87,16 +96,17 @@ fn apply_galois_exact(cfg: &Cfg, grp: &str, case: u64, rng: &mut Rng, rep: &mut 
             let res = match r { Ok(c) => c, Err(p) => { viol(&o, rep, "apply_galois", spec.scheme_name(), "panic", format!("g={} level {}: {}", g, level, p.0)); continue; } };
             if let Err(e) = valid_ct(&kit, &res) { viol(&o, rep, "apply_galois", spec.scheme_name(), "invalid_result", e); continue; }
             if res.size() != 2 || res.parms_id() != ct.parms_id() || res.is_ntt_form() != ct.is_ntt_form() || res.correction_factor() != ct.correction_factor() { viol(&o, rep, "apply_galois", spec.scheme_name(), "metadata", format!("g={}", g)); continue; }
-            let want = refm::automorphism(&m, g, t);
-            if case == 0 && level == 0 && g == elts[elts.len() / 2] { rep.sample(json!({"group": grp, "params": spec.describe(), "galois_element": g, "plaintext_head": m[..n.min(8)], "expected_head": want[..n.min(8)], "decrypted_head": exact_poly(&kit, &oracle, &res).ok().map(|x| x.0[..n.min(8)].to_vec())})); }
+            let want = refm::automorphism(m, g, t);
+            if case == 0 && level == 0 && sname == "fresh" && g == elts[elts.len() / 2] { rep.sample(json!({"group": grp, "params": spec.describe(), "galois_element": g, "plaintext_head": m[..n.min(8)], "expected_head": want[..n.min(8)], "decrypted_head": exact_poly(&kit, &oracle, &res).ok().map(|x| x.0[..n.min(8)].to_vec())})); }
             match exact_poly(&kit, &oracle, &res) {
                 Err(p) => viol(&o, rep, "apply_galois", &format!("{}|decrypt", spec.scheme_name()), "panic", p.0),
                 Ok((lm, om)) => {
-                    if lm != want { viol(&o, rep, "apply_galois", spec.scheme_name(), "value", format!("g={} level {}: decrypted polynomial is not the plaintext with X -> X^g: got {:?} want {:?}", g, level, &lm[..n.min(8)], &want[..n.min(8)])); }
+                    if lm != want { viol(&o, rep, "apply_galois", &format!("{}|source={}", spec.scheme_name(), sname), "value", format!("g={} level {}: decrypted polynomial is not the plaintext with X -> X^g: got {:?} want {:?}", g, level, &lm[..n.min(8)], &want[..n.min(8)])); }
                     if let Some(om) = om { if om != want { viol(&o, rep, "apply_galois", &format!("{}|oracle", spec.scheme_name()), "value", format!("g={} level {}: oracle decryption differs", g, level)); } }
                 }
             }
         }
+    }
     }
 }
 
@@ -122,6 +132,8 @@ fn rotations_exact(cfg: &Cfg, grp: &str, case: u64, rng: &mut Rng, rep: &mut Rep
     let Ok(plain) = lib(|| be.encode_new(&values)) else { return };
     let mpoly = plain_coeffs(&plain, n);
     let Ok(ct0) = lib(|| kit.enc.encrypt_new(&plain)) else { return };
+    // every fourth case rotates the noise-free ciphertext (x - x) + plain instead: c1 = 0
+    let ct0 = if case % 4 == 1 { match special_exact(&kit, &mpoly, &mpoly, &mpoly).into_iter().find(|s| s.name == "transparent") { Some(s) => { rep.count("source_ciphertext", "transparent"); s.ct } None => ct0 } } else { rep.count("source_ciphertext", "fresh"); ct0 };
     for (kname, keys) in [("exact_step_keys", &exact_keys), ("default_power_of_two_keys", &default_keys)] {
         let Ok(gk) = keys else { viol(&o, rep, "create_galois_keys", &format!("{}|{}", spec.scheme_name(), kname), "panic", "key generation panicked".into()); continue; };
         for level in 0..kit.levels.len() {
@@ -173,6 +185,8 @@ fn ckks_case(cfg: &Cfg, grp: &str, case: u64, rng: &mut Rng, rep: &mut Report, n
     let values: Vec<C64> = (0..h).map(|j| C64::new(j as f64 + 1.0, -(j as f64) - 0.5)).collect();
     let vmax = values.iter().map(|v| v.norm()).fold(0.0, f64::max);
     let Ok(ct0) = lib(|| kit.enc.encrypt_new(&enc.encode_c64_array_new(&values, None, scale))) else { return };
+    // every fourth case rotates / conjugates the noise-free ciphertext (x - x) + plain instead: c1 = 0
+    let ct0 = if case % 4 == 2 { match special_ckks(&kit, &values, &values, &values, scale).into_iter().find(|s| s.name == "transparent") { Some(s) => { rep.count("source_ciphertext", "transparent"); s.ct } None => ct0 } } else { rep.count("source_ciphertext", "fresh"); ct0 };
     let steps: Vec<isize> = if n <= 64 { (-(h as isize - 1)..=(h as isize - 1)).filter(|&s| s != 0).collect() } else { vec![1, -1, 2, -3, h as isize - 1, -(h as isize - 1), rng.range(1, h as u64 - 1) as isize] };
     let all_elts: Vec<usize> = if n <= 32 { (0..n).map(|i| 2 * i + 1).collect() } else { (0..16).map(|_| 2 * rng.usize_below(n) + 1).collect() };
     let keysets: Vec<(&str, Result<GaloisKeys, Panicked>)> = vec![
